@@ -247,7 +247,7 @@ def run_units(units, tier):
         for ln in p.stderr.split('\n'):
             mo = re.match(r'(error|warning|note)(\[\w+\])?: (.*)$', ln)
             if mo:
-                cur = dict(level=mo.group(1), msg=mo.group(3), lines=[])
+                cur = dict(level=mo.group(1), msg=mo.group(3), lines=[], code=mo.group(2))
                 if mo.group(1) == 'error':
                     errors.append(cur)
                 continue
@@ -266,8 +266,17 @@ def run_units(units, tier):
         # map errors to functions
         failed = {}
         unmapped = []
+        VERIF_MSG = ('postcondition not satisfied', 'precondition not satisfied', 'assertion failed', 'invariant not satisfied',
+                     'loop invariant not', 'possible arithmetic underflow/overflow', 'possible division by zero', 'possible bit shift',
+                     'decreases not satisfied', 'could not show termination', 'cannot show', 'recommendation not met',
+                     'index out of bounds', 'unwrap', 'constructed value may fail to meet its declared type invariant',
+                     'refinement', 'loop ensures not satisfied', 'loop ensures')
         for e in errors:
             if e['msg'].startswith('aborting due to'):
+                continue
+            if e.get('code') or not any(k in e['msg'] for k in VERIF_MSG):
+                # a rustc / VIR error, not a failed proof obligation
+                unmapped.append('compile error: ' + e['msg'])
                 continue
             hit = None
             for ln in e['lines']:
